@@ -2,6 +2,7 @@
 from ..model import resolve_addr, strip_casts, strip_int_casts, const_int, loaded_from
 from ..core import AnalysisBroken
 from ..expr import lin, Lin
+from .. import expr
 
 
 def rule_implicit_codes(ctx, rep, config="c-lib"):
@@ -178,3 +179,78 @@ def rule_costs_and_replay(ctx, rep, config="c-lib"):
     else:
         rep.violation("C11-actions", "yaep_parse_grammar/replay", "yaep_parse_grammar does not replay the parsed description into yaep_read_grammar (same object, same strict_p, "
                                                                   "the two replay callbacks) and release it afterwards", where=f.where())
+
+
+def rule_declaration_merge(ctx, rep, config="c-lib"):
+    rep.rule("C11-merge", "repeated declarations of one terminal in a description are merged into the element that is kept: the pointer used for later comparisons and updates "
+                          "is the destination of the copy that keeps the element (not the place it was copied from), and the kept element's code is overwritten by the "
+                          "other declaration's code only when it has none (kept code == -1 / < 0)")
+    from .r5 import _controlling_conditions
+    p = ctx.prog(config)
+    f = p.fn("set_sgrammar")
+    rep.cover(p, [f.name])
+    expr.NAMED[0] = True
+    try:
+        copies = [i for i in f.calls() if (i.callee or "").startswith("llvm.memcpy") and "sterms" in repr(expr.lin(f, i.args[0], 0, 2))]
+        merges = []
+        for s_ in f.all_insts():
+            if s_.op != "store" or resolve_addr(f, s_.ops[1]).last_field() != "sterm.code":
+                continue
+            v = f.inst(strip_int_casts(f, s_.ops[0]))
+            if v is not None and v.op == "load" and resolve_addr(f, v.ops[0]).last_field() == "sterm.code":
+                merges.append((s_, v))
+        if len(copies) != 1 or len(merges) != 1:
+            raise AnalysisBroken("C11-merge: the merge loop of set_sgrammar is not of the known shape (%d element copies, %d code merges)" % (len(copies), len(merges)))
+        cp = copies[0]
+        dst = expr.lin(f, cp.args[0], 0, 2)
+        s_, v = merges[0]
+        kept = resolve_addr(f, s_.ops[1])
+        kept_val = kept.root[1] if kept.root[0] == "val" else None
+        # (1) the pointer through which the kept element is updated is the copy's destination
+        phis = []
+        ki = f.inst(strip_casts(f, kept_val)) if kept_val is not None else None
+        work, seen = [ki], set()
+        srcs = []
+        while work:
+            x = work.pop()
+            if x is None or x.id in seen:
+                continue
+            seen.add(x.id)
+            if x.op == "phi":
+                for (val, pb) in x.d["incoming"]:
+                    xi = f.inst(strip_casts(f, val))
+                    if xi is not None and xi.op == "phi":
+                        work.append(xi)
+                    elif val.get("k") != "null":
+                        srcs.append((val, pb))
+        bad = [(val, pb) for (val, pb) in srcs if expr.lin(f, val, 0, 2) != dst]
+        if srcs and not bad:
+            rep.ok("C11-merge", "set_sgrammar/kept-element", sample={"copy": cp.where(), "kept": repr(dst)})
+        elif not srcs:
+            raise AnalysisBroken("C11-merge: cannot see what the pointer to the kept declaration is set to")
+        else:
+            rep.violation("C11-merge", "set_sgrammar/kept-element", "the declaration is kept at %r, but later declarations of the same name are compared with and merged into %r: "
+                          "the merge updates a place that is overwritten or dropped, the kept declaration never gets the explicit code" % (dst, expr.lin(f, bad[0][0], 0, 2)),
+                          where=cp.where(), witness=[cp.where(), s_.where()])
+        # (2) the merge condition
+        okc = False
+        seenc = []
+        for (c, pol) in _controlling_conditions(f, s_.block.name):
+            lp = loaded_from(f, c.ops[0])
+            if lp is None or lp.last_field() != "sterm.code" or lp.root != kept.root:
+                continue
+            k = const_int(c.ops[1])
+            pr = c.d["pred"]
+            if not pol:
+                pr = {"eq": "ne", "ne": "eq", "slt": "sge", "sge": "slt", "sle": "sgt", "sgt": "sle"}.get(pr, pr)
+            seenc.append("%s %s" % (pr, k))
+            if (pr, k) in (("eq", -1), ("slt", 0), ("sle", -1)):
+                okc = True
+        if okc:
+            rep.ok("C11-merge", "set_sgrammar/merge-condition", sample={"store": s_.where(), "condition": seenc})
+        else:
+            rep.violation("C11-merge", "set_sgrammar/merge-condition", "the kept declaration's code is overwritten by the repeated declaration's code under `kept code %s', not when "
+                          "the kept one has no code: `TERM a=5 a' loses the explicit code 5 (a gets a free code from 256), `TERM a a=5' never gets it" % (
+                              ", ".join(seenc) or "<no test of the kept code>"), where=s_.where(), witness=[s_.where()])
+    finally:
+        expr.NAMED[0] = False
